@@ -45,7 +45,7 @@ pub struct Tls<'a, P> {
 }
 impl<'a, P: Pe<'a>> Tls<'a, P> {
 	pub(crate) fn try_from(pe: P) -> Result<Tls<'a, P>> {
-		let datadir = pe.data_directory().get(IMAGE_DIRECTORY_ENTRY_TLS).ok_or(Error::Bounds)?;
+		let datadir = pe.data_directory().get(IMAGE_DIRECTORY_ENTRY_TLS).ok_or(Error::Null)?;
 		let image = pe.derva(datadir.VirtualAddress)?;
 		Ok(Tls { pe, image })
 	}
